@@ -20,6 +20,17 @@
 //! AFTER the first transmission: retransmissions of the request and the ACK for a non-2xx final response
 //! (both are requests to the same URI).  It does not demand that they use the transport of the first
 //! transmission unless the caller pinned one: the statement does not say so.
+//!
+//! Requests that carry a (pre-loaded) `Route` header: the statement speaks of "a request to a sips: URI" and
+//! of "the URI's port"; RFC 3261 8.1.2 lets the next hop of such a request be the topmost Route entry, with
+//! the security requirement of a sips Request-URI carried over to it.  `readings` lists every reading of
+//! "the target" the statement admits for such a request (the Request-URI as it stands; the topmost Route
+//! entry as next hop, sips if either of the two URIs is sips), `judge_any` / `judge_later_any` accept an
+//! observation that is clean under ANY of them.  No reading lets a request whose Request-URI is sips leave
+//! over a transport that does not report itself secure.
+//!
+//! A request whose first `Transport::send` call was made to fail by the harness (`Observation::send_fault`)
+//! may fail although candidates are eligible; everything that did leave is judged as usual.
 
 use std::net::{IpAddr, SocketAddr};
 
@@ -188,6 +199,9 @@ pub struct Observation {
     pub sent: Vec<(Carrier, bool, SocketAddr)>,
     /// every factory `connect` call during the request: (factory key, address)
     pub connects: Vec<(usize, SocketAddr)>,
+    /// the harness made a `Transport::send` call of this request fail (transient io error): the request may
+    /// be reported as failed although candidates are eligible / a usable transport is pinned
+    pub send_fault: bool,
 }
 
 #[derive(Clone, Debug, PartialEq, Eq)]
@@ -246,7 +260,7 @@ pub fn judge(cfg: &Config, t: &Target, pin: Option<&Pin>, obs: &Observation) -> 
             );
         }
         if !obs.success {
-            if !unasserted {
+            if !unasserted && !obs.send_fault {
                 f(&mut out, "c14.pin/failed", "request with a pinned transport failed");
             }
             return out;
@@ -293,7 +307,7 @@ pub fn judge(cfg: &Config, t: &Target, pin: Option<&Pin>, obs: &Observation) -> 
     }
 
     if !obs.success {
-        if e.must_succeed() {
+        if e.must_succeed() && !obs.send_fault {
             let which = if !e.dgrams.is_empty() {
                 "datagram"
             } else if !e.conns_held.is_empty() {
@@ -400,6 +414,72 @@ pub fn judge(cfg: &Config, t: &Target, pin: Option<&Pin>, obs: &Observation) -> 
         }
     }
     out
+}
+
+/// Every reading of "the target" of a request with Request-URI `t` whose topmost Route entry is `first_route`
+/// (see the module comment).  The first element is always the Request-URI reading.
+pub fn readings(t: &Target, first_route: Option<&Target>) -> Vec<Target> {
+    let mut v = vec![t.clone()];
+    if let Some(r) = first_route {
+        let sips = t.sips || r.sips;
+        v.push(Target {
+            sips,
+            ip: r.ip,
+            port: r.port,
+        });
+        if r.port.is_none() && sips && !r.sips {
+            // a sip: Route entry without port behind a sips Request-URI: the entry's own default port is
+            // as good a reading as the sips default (the transport must report itself secure either way)
+            v.push(Target {
+                sips,
+                ip: r.ip,
+                port: Some(5060),
+            });
+        }
+    }
+    v
+}
+
+/// index of the reading to report when none is clean: fewest findings among the readings whose host is the
+/// one the request went to, else the Request-URI reading
+fn reading_to_report(readings: &[Target], results: &[Vec<Finding>], went_to: Option<IpAddr>) -> usize {
+    let mut best: Option<usize> = None;
+    for (i, r) in readings.iter().enumerate() {
+        if Some(r.ip) == went_to && best.map_or(true, |b| results[i].len() < results[b].len()) {
+            best = Some(i);
+        }
+    }
+    best.unwrap_or(0)
+}
+
+fn tag_reading(mut v: Vec<Finding>, i: usize, r: &Target) -> Vec<Finding> {
+    if i > 0 {
+        for x in v.iter_mut() {
+            x.msg = format!("{} [judged with the topmost Route entry as next hop: {:?}]", x.msg, r);
+        }
+    }
+    v
+}
+
+/// `judge` under every reading; clean if any reading is clean.
+pub fn judge_any(cfg: &Config, readings: &[Target], pin: Option<&Pin>, obs: &Observation) -> Vec<Finding> {
+    let results: Vec<Vec<Finding>> = readings.iter().map(|t| judge(cfg, t, pin, obs)).collect();
+    if results.iter().any(|r| r.is_empty()) {
+        return vec![];
+    }
+    let went_to = obs.sent.first().map(|s| s.2.ip()).or(obs.connects.first().map(|c| c.1.ip()));
+    let i = reading_to_report(readings, &results, went_to);
+    tag_reading(results[i].clone(), i, &readings[i])
+}
+
+/// `judge_later` under every reading; clean if any reading is clean.
+pub fn judge_later_any(readings: &[Target], pin: Option<&Pin>, later: &[Later]) -> Vec<Finding> {
+    let results: Vec<Vec<Finding>> = readings.iter().map(|t| judge_later(t, pin, later)).collect();
+    if results.iter().any(|r| r.is_empty()) {
+        return vec![];
+    }
+    let i = reading_to_report(readings, &results, later.first().map(|l| l.dest.ip()));
+    tag_reading(results[i].clone(), i, &readings[i])
 }
 
 fn dest_finding(out: &mut Vec<Finding>, t: &Target, got: SocketAddr, want: SocketAddr, path: &str) {
